@@ -27,6 +27,10 @@ type Witness struct {
 	} `json:"edits,omitempty"`
 	Expect string `json:"expect"`
 	Note   string `json:"note"`
+	// Patch names a unified diff (relative to the verification directory) that
+	// is applied instead of the regexp edits: a seeded breaking change kept
+	// under seeded/. Expect may be empty: any violation of the property counts.
+	Patch string `json:"patch,omitempty"`
 }
 
 func LoadWitnesses(verif string) ([]Witness, error) {
@@ -58,6 +62,9 @@ func RunWitness(repo, verif string, idx int) WitnessResult {
 	}
 	w := ws[idx]
 	res := WitnessResult{Index: idx, Note: w.Note, Expect: w.Expect}
+	if w.Patch != "" {
+		return runPatchWitness(repo, verif, idx, w)
+	}
 	path := filepath.Join(repo, w.File)
 	src, err := os.ReadFile(path)
 	if err != nil {
@@ -124,6 +131,69 @@ func RunWitness(repo, verif string, idx int) WitnessResult {
 	res.Status = "not-flagged"
 	for _, v := range viol {
 		if strings.HasSuffix(v, "."+w.Expect) {
+			res.Status = "flagged"
+		}
+	}
+	return res
+}
+
+func runPatchWitness(repo, verif string, idx int, w Witness) WitnessResult {
+	res := WitnessResult{Index: idx, Note: w.Note, Expect: w.Expect}
+	diff, err := os.ReadFile(filepath.Join(verif, w.Patch))
+	if err != nil {
+		res.Status = "not-applicable"
+		res.Reports = err.Error()
+		return res
+	}
+	overlay, err := ApplyUnifiedDiff(repo, string(diff))
+	if err != nil {
+		res.Status = "not-applicable"
+		res.Reports = "patch does not apply to this tree: " + err.Error()
+		return res
+	}
+	p, err := Load(repo, overlay)
+	if err != nil {
+		res.Status = "does-not-compile"
+		res.Reports = err.Error()
+		return res
+	}
+	pc := registry[w.Property]
+	if pc == nil {
+		res.Status = "not-applicable"
+		return res
+	}
+	var viol []string
+	func() {
+		defer func() {
+			if r := recover(); r != nil {
+				if be, ok := r.(*BrokenError); ok {
+					viol = append(viol, "BROKEN:"+be.Msg)
+					return
+				}
+				panic(r)
+			}
+		}()
+		c := NewCtx(p, w.Property, "quick")
+		pc.Run(c)
+		known := map[string]bool{}
+		if fs, err := LoadFindings(filepath.Join(verif, "known_findings.jsonl")); err == nil {
+			for _, f := range fs {
+				if f.Status == "known" && f.Property == w.Property {
+					known[f.Key] = true
+				}
+			}
+		}
+		for _, o := range c.Obls {
+			if o.Verdict == "violated" && !known[o.Key()] {
+				viol = append(viol, o.Rule)
+			}
+		}
+	}()
+	sort.Strings(viol)
+	res.Reports = strings.Join(viol, ",")
+	res.Status = "not-flagged"
+	for _, v := range viol {
+		if w.Expect == "" || strings.HasSuffix(v, "."+w.Expect) {
 			res.Status = "flagged"
 		}
 	}
